@@ -81,6 +81,20 @@ lazy_static! {
     static ref SCRIPTED_HANDLERS: Mutex<VecDeque<ScriptedHandler>> = Mutex::new(VecDeque::new());
 }
 
+lazy_static! {
+    static ref PENDING_TIMEOUT: Mutex<Option<std::time::Duration>> = Mutex::new(None);
+}
+
+/// Overrides the pending timeout (60 s) of the routing table of every `Discv5` created afterwards;
+/// `None` restores the default.
+pub fn set_pending_timeout(timeout: Option<std::time::Duration>) {
+    *PENDING_TIMEOUT.lock() = timeout;
+}
+
+pub(crate) fn pending_timeout() -> Option<std::time::Duration> {
+    *PENDING_TIMEOUT.lock()
+}
+
 /// Creates a virtual wire and queues its socket end for the next `Socket::new`.
 pub fn push_virtual_wire() -> VirtualWire {
     let (inject, inbound) = mpsc::unbounded_channel();
